@@ -4,7 +4,8 @@
 // three groups of parts (-DC13_PART_<PART>..., -DC13_GEN_HEADER="...") x two optimisation levels (-O2 / -O0 appended
 // after bin/check's -O1).  Parts: CM64 CM32 CMLD (cmath double/float/long double), INT8 NUM8 (8-bit exhaustive: cctype,
 // bit, numeric), W1632 W64 (wider integers, bit_cast), CSTR (C strings, string_view, char_traits), SCEN (constexpr digests
-// of container / string / charconv / algorithm / chrono / bitset histories).
+// of container / string / charconv / algorithm / chrono / bitset histories), WSTR (every character type: char_traits,
+// string_view, inplace_string, strn*/wcsn*/wmem* on exact-size unterminated arrays).
 //
 // For every obligation (function F, argument tuple a):
 //   compile time : F::call(a) is evaluated by the compiler into a constexpr table.  Tables are built block-wise; every
@@ -39,6 +40,7 @@
 #include <etl/cmath.hpp>
 #include <etl/cstdlib.hpp>
 #include <etl/cstring.hpp>
+#include <etl/cwchar.hpp>
 #include <etl/numeric.hpp>
 #include <etl/string.hpp>
 #include <etl/string_view.hpp>
@@ -72,6 +74,34 @@ struct Ch { using type = int; };                       // int holding a characte
 struct Str { using type = u64; };                      // packed C string (<= 7 chars)
 struct Cnt { using type = std::size_t; };              // size_t count
 struct Seed { using type = u64; };                     // scenario seed
+template <typename C>
+struct WSeq { using type = u64; using char_type = C; }; // sequence of <= 15 code units of C: 4-bit alphabet indices, 0 ends
+template <typename C>
+struct WUnit { using type = u64; using char_type = C; }; // one code unit of C: alphabet index 1..12
+template <typename T>
+inline constexpr bool is_wseq = false;
+template <typename C>
+inline constexpr bool is_wseq<WSeq<C>> = true;
+template <typename T>
+inline constexpr bool is_wunit = false;
+template <typename C>
+inline constexpr bool is_wunit<WUnit<C>> = true;
+// twelve code units per character type; byte order and value order disagree (0x00ff / 0x0100, 0x01ff / 0x0200,
+// 0x20ac / 0x21ab), top bits, supplementary-plane values and negative wchar_t are all present
+template <typename C>
+struct Alpha;
+template <>
+struct Alpha<char> { static constexpr unsigned long v[12] = {0x61, 0x62, 0x01, 0x7f, 0x80, 0x81, 0xe9, 0xfe, 0xff, 0x20, 0x41, 0x30}; };
+template <>
+struct Alpha<char8_t> { static constexpr unsigned long v[12] = {0x61, 0x62, 0x01, 0x7f, 0x80, 0x81, 0xe9, 0xfe, 0xff, 0x20, 0x41, 0x30}; };
+template <>
+struct Alpha<char16_t> { static constexpr unsigned long v[12] = {0x0061, 0x00ff, 0x0100, 0x01ff, 0x0200, 0x20ac, 0x21ab, 0x7fff, 0x8000, 0xffff, 0xff00, 0x0001}; };
+template <>
+struct Alpha<char32_t> { static constexpr unsigned long v[12] = {0x61, 0xff, 0x100, 0x1ff, 0x200, 0x20ac, 0x21ab, 0xffff, 0x10000, 0x10ffff, 0x80000000UL, 0xffffffffUL}; };
+template <>
+struct Alpha<wchar_t> { static constexpr unsigned long v[12] = {0x61, 0xff, 0x100, 0x1ff, 0x200, 0x20ac, 0x21ab, 0xffff, 0x10000, 0x10ffff, 0x80000000UL, 0xffffff00UL}; };
+template <typename C>
+constexpr auto unit(u64 idx) -> C { return static_cast<C>(Alpha<C>::v[(idx - 1) % 12]); }
 struct LD { using type = long double; };               // long double given as the bits of a double (hi) ...
 struct LDlo { using type = double; };                  // ... plus the bits of a second double (lo): value = hi + lo, exact
 template <typename T>
@@ -167,6 +197,13 @@ auto classify_arg(u64 b) -> unsigned
         auto const fl = __builtin_floor(ax);
         if (ax - fl == 0.5) { c |= kTie; }
         return c;
+    } else if constexpr (is_wseq<T> || is_wunit<T>) {
+        unsigned c = kChar;
+        if ((b & 0xf) == 0) { c |= kZero; }
+        for (int i = 0; i < 16 && ((b >> (4 * i)) & 0xf) != 0; ++i) {
+            if (Alpha<typename T::char_type>::v[((b >> (4 * i)) & 0xf) - 1] > 0x7f) { c |= kHighBit; }
+        }
+        return c;
     } else if constexpr (std::is_same_v<T, Ch>) {
         auto const ch = as<T>(b);
         return kChar | ((ch < 0 || ch > 127) ? kHighBit : 0U);
@@ -215,6 +252,13 @@ auto show_arg(u64 b) -> std::string
             }
         }
         return s + "\"";
+    } else if constexpr (is_wseq<T> || is_wunit<T>) {
+        std::string o = is_wseq<T> ? "[" : "";
+        for (int i = 0; i < 16 && ((b >> (4 * i)) & 0xf) != 0; ++i) {
+            std::snprintf(buf, sizeof buf, "%s0x%lx", i == 0 ? "" : " ", Alpha<typename T::char_type>::v[((b >> (4 * i)) & 0xf) - 1]);
+            o += buf;
+        }
+        return o + (is_wseq<T> ? "]" : "");
     } else if constexpr (std::is_same_v<T, Seed>) {
         std::snprintf(buf, sizeof buf, "seed 0x%016llx", static_cast<unsigned long long>(b));
         return buf;
@@ -787,6 +831,132 @@ C13_FN2(traits_find, "traits_find", "cstring", Str, Ch, true, kNoTag, [&] { CStr
     #define C13_HAVE_PART 1
 #endif
 
+// ================================================================== bounded / wide character sequences
+#if defined(C13_PART_WSTR)
+// Every character type (char, char8_t, char16_t, char32_t, wchar_t); arrays are EXACTLY as long as the call may read:
+// a source of count characters has no terminator (allowed for strncpy / strncmp / mem* / char_traits), a shorter one has.
+// Reading one element further is not a constant expression (transient allocation of exactly that size) and an ASan
+// report at run time.  Results of copying functions are hashes of the whole destination.
+template <typename C>
+struct Arr {
+    C* p;
+    std::size_t n;    // characters
+    std::size_t size; // allocated elements: n, or n + 1 when terminated
+    constexpr Arr(u64 packed, bool terminated) : p{nullptr}, n{0}, size{0}
+    {
+        while (n < 15 && ((packed >> (4 * n)) & 0xf) != 0) { ++n; }
+        size = n + (terminated ? 1U : 0U);
+        p    = new C[size];
+        for (std::size_t i = 0; i < n; ++i) { p[i] = unit<C>((packed >> (4 * i)) & 0xf); }
+        if (terminated) { p[n] = C(0); }
+    }
+    constexpr Arr(std::size_t count, C fill) : p{new C[count]}, n{count}, size{count}
+    {
+        for (std::size_t i = 0; i < count; ++i) { p[i] = fill; }
+    }
+    constexpr ~Arr() { delete[] p; }
+    Arr(Arr const&)                    = delete;
+    auto operator=(Arr const&) -> Arr& = delete;
+};
+constexpr auto seq_len(u64 packed) -> std::size_t
+{
+    std::size_t n = 0;
+    while (n < 15 && ((packed >> (4 * n)) & 0xf) != 0) { ++n; }
+    return n;
+}
+template <typename C>
+constexpr auto hash_units(C const* p, std::size_t n) -> u64
+{
+    u64 h = 1469598103934665603ULL;
+    for (std::size_t i = 0; i < n; ++i) {
+        h ^= static_cast<u64>(static_cast<std::uint32_t>(p[i])); // the code unit, value preserved modulo 2^32
+        h *= 1099511628211ULL;
+    }
+    return h ^ (n << 56U);
+}
+constexpr auto sgn3(int v) -> int { return v < 0 ? -1 : (v > 0 ? 1 : 0); }
+template <typename C>
+constexpr auto woff(C const* r, C const* base) -> long { return r == nullptr ? -1L : static_cast<long>(r - base); }
+constexpr auto min_sz(std::size_t a, std::size_t b) -> std::size_t { return a < b ? a : b; }
+
+    #define C13_WSTR(S, C)                                                                                                                       \
+        using sv_##S  = etl::basic_string_view<C, etl::char_traits<C>>;                                                                          \
+        using str_##S = etl::basic_inplace_string<C, 8>;                                                                                         \
+        using tr_##S  = etl::char_traits<C>;                                                                                                     \
+        C13_FN2(traits_lt_##S, "traits_lt." #S, "wstring", WUnit<C>, WUnit<C>, true, kNoTag, tr_##S::lt(unit<C>(x), unit<C>(y)))                 \
+        C13_FN2(traits_eq_##S, "traits_eq." #S, "wstring", WUnit<C>, WUnit<C>, true, kNoTag, tr_##S::eq(unit<C>(x), unit<C>(y)))                 \
+        C13_FN1(traits_length_##S, "traits_length." #S, "wstring", WSeq<C>, true, kNoTag, [&] { Arr<C> a{x, true}; return tr_##S::length(a.p); }()) \
+        C13_FN3(traits_compare_##S, "traits_compare." #S, "wstring", WSeq<C>, WSeq<C>, Cnt, (z <= min_sz(seq_len(x), seq_len(y))), kNoTag,       \
+            [&] { Arr<C> a{x, false}; Arr<C> b{y, false}; return sgn3(tr_##S::compare(a.p, b.p, z)); }())                                         \
+        C13_FN3(traits_find_##S, "traits_find." #S, "wstring", WSeq<C>, WUnit<C>, Cnt, (z <= seq_len(x)), kNoTag,                                \
+            [&] { Arr<C> a{x, false}; auto const c = unit<C>(y); return woff(tr_##S::find(a.p, z, c), static_cast<C const*>(a.p)); }())           \
+        C13_FN2(traits_copy_##S, "traits_copy." #S, "wstring", WSeq<C>, Cnt, (y <= seq_len(x)), kNoTag,                                          \
+            [&] { Arr<C> a{x, false}; Arr<C> d{y, C(0x55)}; auto* r = tr_##S::copy(d.p, a.p, y); return hash_units(d.p, y) ^ static_cast<u64>(r == d.p); }()) \
+        C13_FN2(traits_move_up_##S, "traits_move_up." #S, "wstring", WSeq<C>, Cnt, (y + 1 <= seq_len(x)), kNoTag,                                \
+            [&] { Arr<C> a{x, false}; tr_##S::move(a.p + 1, a.p, y); return hash_units(a.p, a.n); }())                                            \
+        C13_FN2(traits_move_down_##S, "traits_move_down." #S, "wstring", WSeq<C>, Cnt, (y + 1 <= seq_len(x)), kNoTag,                            \
+            [&] { Arr<C> a{x, false}; tr_##S::move(a.p, a.p + 1, y); return hash_units(a.p, a.n); }())                                            \
+        C13_FN2(traits_assign_##S, "traits_assign." #S, "wstring", WUnit<C>, Cnt, true, kNoTag,                                                  \
+            [&] { Arr<C> d{y, C(0x55)}; tr_##S::assign(d.p, y, unit<C>(x)); return hash_units(d.p, y); }())                                       \
+        C13_FN2(sv_compare_##S, "sv_compare." #S, "wstring", WSeq<C>, WSeq<C>, true, kNoTag,                                                     \
+            [&] { Arr<C> a{x, false}; Arr<C> b{y, false}; return sgn3(sv_##S{a.p, a.n}.compare(sv_##S{b.p, b.n})); }())                            \
+        C13_FN2(sv_less_##S, "sv_less." #S, "wstring", WSeq<C>, WSeq<C>, true, kNoTag,                                                           \
+            [&] { Arr<C> a{x, false}; Arr<C> b{y, false}; sv_##S const l{a.p, a.n}; sv_##S const r{b.p, b.n}; return (l < r) + 2 * (l == r) + 4 * (l > r) + 8 * (l <= r) + 16 * (l != r); }()) \
+        C13_FN2(sv_find_##S, "sv_find." #S, "wstring", WSeq<C>, WSeq<C>, true, kNoTag,                                                           \
+            [&] { Arr<C> a{x, false}; Arr<C> b{y, false}; sv_##S const l{a.p, a.n}; sv_##S const r{b.p, b.n}; return l.find(r) * 131 + l.rfind(r) * 17 + l.starts_with(r) + 2 * l.ends_with(r); }()) \
+        C13_FN2(sv_find_ch_##S, "sv_find_ch." #S, "wstring", WSeq<C>, WUnit<C>, true, kNoTag,                                                    \
+            [&] { Arr<C> a{x, false}; sv_##S const l{a.p, a.n}; auto const c = unit<C>(y); return l.find(c) * 131 + l.rfind(c) * 17 + l.find_first_not_of(c); }()) \
+        C13_FN2(str_compare_##S, "str_compare." #S, "wstring", WSeq<C>, WSeq<C>, (seq_len(x) <= 8 && seq_len(y) <= 8), kNoTag,                   \
+            [&] { Arr<C> a{x, false}; Arr<C> b{y, false}; str_##S const l{a.p, a.n}; str_##S const r{b.p, b.n}; return sgn3(l.compare(r)) + 3 * (l < r) + 9 * (l == r) + 27 * (l.find(r) + 1); }())
+C13_WSTR(c8, char)
+C13_WSTR(u8, char8_t)
+C13_WSTR(u16, char16_t)
+C13_WSTR(u32, char32_t)
+C13_WSTR(wc, wchar_t)
+// <cstring> / <cwchar> bounded functions.  Sources of at least `count` characters are not terminated.
+    #define C13_NCPY(ID, NAME, C, F)                                                                                                             \
+        C13_FN2(ID, NAME, "wstring", WSeq<C>, Cnt, true, kNoTag,                                                                                 \
+            [&] { Arr<C> a{x, seq_len(x) < y}; Arr<C> d{y, C(0x55)}; auto* r = F(d.p, a.p, y); return hash_units(d.p, y) ^ static_cast<u64>(r == d.p); }())
+    #define C13_NCAT(ID, NAME, C, F)                                                                                                             \
+        C13_FN3(ID, NAME, "wstring", WSeq<C>, WSeq<C>, Cnt, true, kNoTag, [&] {                                                                  \
+            Arr<C> a{y, seq_len(y) < z};                                                                                                         \
+            auto const dl = seq_len(x);                                                                                                          \
+            Arr<C> d{dl + min_sz(a.n, z) + 1, C(0x55)};                                                                                          \
+            for (std::size_t i = 0; i < dl; ++i) { d.p[i] = unit<C>((x >> (4 * i)) & 0xf); }                                                     \
+            d.p[dl]  = C(0);                                                                                                                     \
+            auto* r  = F(d.p, a.p, z);                                                                                                           \
+            return hash_units(d.p, d.size) ^ static_cast<u64>(r == d.p);                                                                         \
+        }())
+    #define C13_NCMP(ID, NAME, C, F)                                                                                                             \
+        C13_FN3(ID, NAME, "wstring", WSeq<C>, WSeq<C>, Cnt, true, kNoTag,                                                                        \
+            [&] { Arr<C> a{x, seq_len(x) < z}; Arr<C> b{y, seq_len(y) < z}; return sgn3(F(a.p, b.p, z)); }())
+C13_NCPY(strncpy_x, "strncpy", char, etl::strncpy)
+C13_NCAT(strncat_x, "strncat", char, etl::strncat)
+C13_NCMP(strncmp_x, "strncmp_exact", char, etl::strncmp)
+C13_NCPY(wcsncpy_x, "wcsncpy", wchar_t, etl::wcsncpy)
+C13_NCAT(wcsncat_x, "wcsncat", wchar_t, etl::wcsncat)
+C13_NCMP(wcsncmp_x, "wcsncmp", wchar_t, etl::wcsncmp)
+C13_FN2(wcscmp_x, "wcscmp", "wstring", WSeq<wchar_t>, WSeq<wchar_t>, true, kNoTag, [&] { Arr<wchar_t> a{x, true}; Arr<wchar_t> b{y, true}; return sgn3(etl::wcscmp(a.p, b.p)); }())
+C13_FN1(wcslen_x, "wcslen", "wstring", WSeq<wchar_t>, true, kNoTag, [&] { Arr<wchar_t> a{x, true}; return etl::wcslen(a.p); }())
+C13_FN2(wcsstr_x, "wcsstr", "wstring", WSeq<wchar_t>, WSeq<wchar_t>, true, kNoTag,
+    [&] { Arr<wchar_t> a{x, true}; Arr<wchar_t> b{y, true}; return woff(etl::wcsstr(static_cast<wchar_t const*>(a.p), static_cast<wchar_t const*>(b.p)), static_cast<wchar_t const*>(a.p)); }())
+C13_FN2(wcsspn_x, "wcsspn", "wstring", WSeq<wchar_t>, WSeq<wchar_t>, true, kNoTag,
+    [&] { Arr<wchar_t> a{x, true}; Arr<wchar_t> b{y, true}; return etl::wcsspn(a.p, b.p) * 16 + etl::wcscspn(a.p, b.p); }())
+C13_FN3(wmemcmp_x, "wmemcmp", "wstring", WSeq<wchar_t>, WSeq<wchar_t>, Cnt, (z <= min_sz(seq_len(x), seq_len(y))), kNoTag,
+    [&] { Arr<wchar_t> a{x, false}; Arr<wchar_t> b{y, false}; return sgn3(etl::wmemcmp(a.p, b.p, z)); }())
+C13_FN3(wmemchr_x, "wmemchr", "wstring", WSeq<wchar_t>, WUnit<wchar_t>, Cnt, (z <= seq_len(x)), kNoTag,
+    [&] { Arr<wchar_t> a{x, false}; return woff(etl::wmemchr(static_cast<wchar_t const*>(a.p), unit<wchar_t>(y), z), static_cast<wchar_t const*>(a.p)); }())
+C13_FN2(wmemcpy_x, "wmemcpy", "wstring", WSeq<wchar_t>, Cnt, (y <= seq_len(x)), kNoTag,
+    [&] { Arr<wchar_t> a{x, false}; Arr<wchar_t> d{y, wchar_t(0x55)}; auto* r = etl::wmemcpy(d.p, a.p, y); return hash_units(d.p, y) ^ static_cast<u64>(r == d.p); }())
+C13_FN2(wmemmove_up_x, "wmemmove_up", "wstring", WSeq<wchar_t>, Cnt, (y + 1 <= seq_len(x)), kNoTag,
+    [&] { Arr<wchar_t> a{x, false}; etl::wmemmove(a.p + 1, a.p, y); return hash_units(a.p, a.n); }())
+C13_FN2(wmemmove_down_x, "wmemmove_down", "wstring", WSeq<wchar_t>, Cnt, (y + 1 <= seq_len(x)), kNoTag,
+    [&] { Arr<wchar_t> a{x, false}; etl::wmemmove(a.p, a.p + 1, y); return hash_units(a.p, a.n); }())
+C13_FN2(wmemset_x, "wmemset", "wstring", WUnit<wchar_t>, Cnt, true, kNoTag,
+    [&] { Arr<wchar_t> d{y, wchar_t(0x55)}; etl::wmemset(d.p, unit<wchar_t>(x), y); return hash_units(d.p, y); }())
+    #define C13_HAVE_PART 1
+#endif
+
 // ================================================================== scenario digests
 #if defined(C13_PART_SCEN)
 // A scenario is a constexpr function that derives a fixed-length, valid-by-construction operation history from a 64-bit
@@ -1211,7 +1381,93 @@ constexpr auto array_bitset(u64 seed) -> u64
     }
     return h.h;
 }
+// element-wise algorithms over every element width: a run-time-only memcmp / memcpy fast path would order or copy
+// differently for values whose byte order and value order disagree, for negative values and beyond 2^32
+template <typename T>
+constexpr auto ranges(u64 seed) -> u64
+{
+    constexpr T alpha[] = {T(0), T(1), T(0x7f), T(0x80), T(0xff), static_cast<T>(0x100), static_cast<T>(0x1ff), static_cast<T>(0x200), static_cast<T>(-1),
+        std::numeric_limits<T>::min(), std::numeric_limits<T>::max(), static_cast<T>(0x100000001ULL), static_cast<T>(0x0100000000000000ULL),
+        static_cast<T>(0x00ffffffffffffffULL), static_cast<T>(0x20ac), static_cast<T>(0x21ab)};
+    Rng r{seed};
+    Hash h;
+    etl::array<T, 6> a{};
+    etl::array<T, 6> b{};
+    auto const n1 = r.below(7);
+    auto const n2 = r.below(7);
+    auto const cp = r.below((n1 < n2 ? n1 : n2) + 1); // common prefix
+    for (std::size_t i = 0; i < 6; ++i) { a[i] = alpha[r.below(16)]; }
+    for (std::size_t i = 0; i < 6; ++i) { b[i] = i < cp ? a[i] : alpha[r.below(16)]; }
+    auto* const af = a.data();
+    auto* const bf = b.data();
+    auto val = [](T v) { return static_cast<u64>(static_cast<std::make_unsigned_t<T>>(v)); };
+    auto all = [&](T const* f, T const* l) {
+        for (auto const* q = f; q != l; ++q) { h.add(val(*q)); }
+    };
+    h.add(etl::equal(af, af + n1, bf, bf + n2));
+    h.add(etl::equal(af, af + cp, bf));
+    h.add(etl::lexicographical_compare(af, af + n1, bf, bf + n2));
+    h.add(etl::lexicographical_compare(bf, bf + n2, af, af + n1));
+    auto const mm = etl::mismatch(af, af + (n1 < n2 ? n1 : n2), bf);
+    h.add(mm.first - af);
+    h.add(a == b);
+    h.add(a != b);
+    h.add(a < b);
+    h.add(a <= b);
+    h.add(a > b);
+    h.add(etl::min_element(af, af + n1) - af);
+    h.add(etl::max_element(af, af + n1) - af);
+    auto const v = alpha[r.below(16)];
+    h.add(etl::find(af, af + n1, v) - af);
+    h.add(etl::count(af, af + n1, v));
+    h.add(val(etl::min(a[0], b[1])));
+    h.add(val(etl::max(a[2], b[3])));
+    h.add(val(etl::clamp(v, etl::min(a[4], b[4]), etl::max(a[4], b[4]))));
+    {
+        etl::array<T, 6> c{};
+        h.add(etl::copy(af, af + n1, c.data()) - c.data());
+        all(c.data(), c.data() + 6);
+        h.add(c.data() + 6 - etl::copy_backward(bf, bf + n2, c.data() + 6));
+        all(c.data(), c.data() + 6);
+        etl::move(af + cp, af + n1, c.data());
+        all(c.data(), c.data() + 6);
+        // overlapping, in the permitted direction
+        if (n1 >= 2) {
+            auto d = a;
+            etl::copy(d.data() + 1, d.data() + n1, d.data());
+            all(d.data(), d.data() + 6);
+            auto e = a;
+            etl::copy_backward(e.data(), e.data() + n1 - 1, e.data() + n1);
+            all(e.data(), e.data() + 6);
+        }
+        etl::fill(c.data(), c.data() + n2, v);
+        etl::fill_n(c.data() + n2, 6 - n2, a[5]);
+        all(c.data(), c.data() + 6);
+        etl::reverse_copy(af, af + n1, c.data());
+        all(c.data(), c.data() + n1);
+        etl::rotate_copy(bf, bf + cp, bf + n2, c.data());
+        all(c.data(), c.data() + n2);
+        auto x = a;
+        auto y = b;
+        etl::swap_ranges(x.data(), x.data() + n1, y.data());
+        all(x.data(), x.data() + 6);
+        all(y.data(), y.data() + 6);
+        etl::sort(x.data(), x.data() + 6);
+        all(x.data(), x.data() + 6);
+    }
+    return h.h;
+}
 } // namespace scen
+    #define C13_RANGES(S, T) C13_FN1(scen_ranges_##S, "scenario.ranges_" #S, "scenario", Seed, true, kNoTag, scen::ranges<T>(x))
+C13_RANGES(i8, std::int8_t)
+C13_RANGES(u8, std::uint8_t)
+C13_RANGES(i16, std::int16_t)
+C13_RANGES(u16, std::uint16_t)
+C13_RANGES(i32, std::int32_t)
+C13_RANGES(u32, std::uint32_t)
+C13_RANGES(i64, std::int64_t)
+C13_RANGES(u64, std::uint64_t)
+C13_RANGES(c16, char16_t)
     #define C13_SCEN(F) C13_FN1(scen_##F, "scenario." #F, "scenario", Seed, true, kNoTag, scen::F(x))
 C13_SCEN(static_vector)
 C13_FN1(scen_inplace_string, "scenario.inplace_string", "scenario", Seed, true, (scen::inplace_string_impl(x, true) == 1 ? "string.erase.whole" : kNoTag), scen::inplace_string(x))
